@@ -16,6 +16,7 @@ import (
 	"path/filepath"
 	"runtime"
 	"strings"
+	"sync"
 	"sync/atomic"
 	"testing"
 
@@ -309,19 +310,25 @@ type zzOutcome struct {
 // reachable only this way.
 type zzYieldEngine struct {
 	vsim.Plain
+	mu    sync.Mutex // the plot goroutine and the goroutine that closes the stop channel both pass here
 	n, at int
 	fire  func()
 	sites map[string]int
 }
 
 func (e *zzYieldEngine) Yield(site string) {
+	e.mu.Lock()
 	e.n++
 	if e.sites != nil {
 		e.sites[site]++
 	}
+	var f func()
 	if e.n == e.at && e.fire != nil {
-		f := e.fire
+		f = e.fire
 		e.fire = nil
+	}
+	e.mu.Unlock()
+	if f != nil {
 		f()
 	}
 }
@@ -335,6 +342,8 @@ func (p *zzPlot) session(at int, kind int) zzOutcome {
 	if at < 0 && kind == zzStop {
 		eng := &zzYieldEngine{at: -at, sites: map[string]int{}}
 		defer func() {
+			eng.mu.Lock()
+			defer eng.mu.Unlock()
 			for s, n := range eng.sites {
 				sim.Cur.Count("sync-point:"+s[strings.LastIndex(s, "/")+1:], n)
 			}
